@@ -277,7 +277,7 @@ pub fn c01(tier: Tier) -> i32 {
             rep.merge(&c);
         });
     }
-    finish_mc(&rep, &opts, "every built expression of the tier's program space whose documented meaning is specified (U4/U5 excluded and counted); all reachable states of implDFA x referenceDFA x (U1,U2,U3) monitor; every reached state replayed through the public is_match")
+    finish_mc(&rep, &opts, "every built expression of the tier's program space whose documented meaning is specified (U4/U5 excluded and counted); all reachable states of implDFA x referenceDFA x (U1,U2,U3) monitor; every explored TRANSITION (BFS tree and cross edges) replayed through the public is_match, whose answer decides")
 }
 
 pub fn replay_lang_any(case: &serde_json::Value) -> bool {
